@@ -47,6 +47,7 @@ type Sch struct {
 	Mode     string         // object: strip | strict | passthrough
 	Catchall int            // object: index of catchall member, -1 = none
 	PartEx   []string       // object: partial exceptions (nil with Partial = all optional)
+	ReqCall  *[]string      // object: the written .Required(...) call applied last (nil = none; empty = Required())
 	PtrC     bool           // struct: pointer constraint
 	Disc     string         // du: discriminator field
 	DiscMap  map[string]int // du: AtomKey(discriminator value) -> member index, read back from the schema (DiscriminatorMap())
@@ -651,6 +652,19 @@ func genObject(r *hx.Rng, d int, s *Sch, o *objOpts) {
 			name += fmt.Sprintf(".Partial([%q])", fields[0])
 		}
 	}
+	if o == nil && len(s.Fields) > 0 && r.Chance(18) {
+		// .Required() / .Required(keys): documented "makes all fields required, or specific fields if provided"
+		if r.Bool() {
+			z = z.Required()
+			s.ReqCall = &[]string{}
+			name += ".Required()"
+		} else {
+			ks := []string{hx.Pick(r, s.Fields)}
+			z = z.Required(ks)
+			s.ReqCall = &ks
+			name += fmt.Sprintf(".Required([%q])", ks[0])
+		}
+	}
 	if o == nil {
 		var sz string
 		s.Size, sz = pickSize(r)
@@ -734,6 +748,17 @@ func (s *Sch) NodeTok(base int) string {
 					ex[i] = strconv.Itoa(KeyID(f))
 				}
 				part = fmt.Sprintf("ex %d%s", len(ex), joinPrefixed(ex))
+			}
+		}
+		if s.ReqCall != nil {
+			if len(*s.ReqCall) == 0 {
+				part += " req all"
+			} else {
+				ks := make([]string, len(*s.ReqCall))
+				for i, f := range *s.ReqCall {
+					ks[i] = strconv.Itoa(KeyID(f))
+				}
+				part += fmt.Sprintf(" req %d%s", len(ks), joinPrefixed(ks))
 			}
 		}
 		return fmt.Sprintf("object %s %s %s %s %s %s", m, shape, s.Mode, optIdx(s.Catchall, base), part, sizeTok(s.Size))
